@@ -69,13 +69,125 @@ def run_workers(jobs_per_worker, timeout):
         shutil.rmtree(tmp, ignore_errors=True)
 
 
+# The checker's OWN model of the context filter every generated task kind is written with (the filter that normal
+# Python attribute lookup gives the class as written in etasks.py: own body, else first base in the MRO that has one,
+# else identity).  Never obtained by calling the decorated class's filter_context.
+#   identity   : the Lab's context unchanged            subset     : {key: ctx[key] for key in keys if key in ctx}
+#   complement : every entry whose key is NOT in keys   depth1/10  : ctx plus depth = ctx.get('depth', 0) + 1 / + 10
+FILTER_MODEL = {
+    # filter defined in the decorated class's own body, or nowhere (the kinds that existed before)
+    'leaf': 'identity', 'cached': 'identity', 'sub': 'subset', 'count': 'depth1',
+    # (a) inherited from a plain mixin: listed before / after another base, two plain levels up, non-idempotent one
+    'mix_first': 'subset', 'mix_last': 'subset', 'mix_grand': 'subset', 'mix_depth': 'depth1',
+    # (b) inherited from a parent task type (re-decorated subclass)
+    'sub_child': 'subset', 'count_child': 'depth1',
+    # (c) inherited from a grandparent: task type <- task type <- task type; task type <- plain class <- task type;
+    #     task type <- task type <- plain mixin
+    'sub_grandchild': 'subset', 'sub_mid_child': 'subset', 'mix_child': 'subset',
+    # a subclass that OVERRIDES the inherited filter, and a subclass that inherits the override
+    'sub_override': 'complement', 'count_override': 'depth10', 'override_child': 'complement',
+    # subclasses of types that define no filter at all: identity
+    'leaf_child': 'identity', 'leaf_grandchild': 'identity', 'plain_child': 'identity',
+}
+# where the class as written gets its filter from (measured distribution only)
+FILTER_ORIGIN = {
+    'leaf': 'none', 'cached': 'none', 'sub': 'own', 'count': 'own',
+    'mix_first': 'mixin', 'mix_last': 'mixin', 'mix_grand': 'grandparent', 'mix_depth': 'mixin',
+    'sub_child': 'parent_task_type', 'count_child': 'parent_task_type',
+    'sub_grandchild': 'grandparent', 'sub_mid_child': 'grandparent', 'mix_child': 'grandparent',
+    'sub_override': 'own_overriding_inherited', 'count_override': 'own_overriding_inherited',
+    'override_child': 'parent_task_type',
+    'leaf_child': 'none_inherited', 'leaf_grandchild': 'none_inherited', 'plain_child': 'none_inherited',
+}
+# kinds a generated direct kind may be replaced by (same constructor arguments)
+INHERITED_VARIANTS = {
+    'sub': ['mix_first', 'mix_last', 'mix_grand', 'sub_child', 'sub_grandchild', 'sub_mid_child', 'mix_child',
+            'sub_override', 'override_child'],
+    'count': ['mix_depth', 'count_child', 'count_override'],
+    'leaf': ['leaf_child', 'leaf_grandchild', 'plain_child'],
+}
+
+
+def vary_inheritance(rng, job):
+    """replace about half of the direct kinds by a kind that gets the same sort of filter by inheritance"""
+    for k, kind in enumerate(job['kinds']):
+        if kind in INHERITED_VARIANTS and rng.random() < 0.5:
+            job['kinds'][k] = rng.choice(INHERITED_VARIANTS[kind])
+
+
+def gen_matrix_job(rng, backend, empty):
+    """one task of EVERY kind (except cached) in one DAG; with a non-empty context every key list selects a strict
+    subset, so the inherited / overriding / absent filters all give different contexts"""
+    kinds = [k for k in FILTER_MODEL if k != 'cached']
+    rng.shuffle(kinds)
+    ctx_keys = [] if empty else ['a', 'b', 'c']
+    deps, keys = [], []
+    for k, kind in enumerate(kinds):
+        d = sorted(set(rng.randrange(k) for _ in range(rng.randint(0, 2)))) if k and kind != 'leaf' else []
+        deps.append(d)
+        keys.append(sorted(rng.sample(['a', 'b', 'c', 'zz'], rng.randint(1, 2))))
+    return dict(n=len(kinds), deps=deps, kinds=kinds, keys=keys, req=list(range(len(kinds))), backend=backend,
+                mw=rng.choice([2, None]), context=[[k, rng.randint(1, 9)] for k in ctx_keys],
+                mark=rng.randint(1, 99), ctx_none=(empty and rng.random() < 0.5), matrix=True)
+
+
 def expected_context(job, k):
     ctx = {a: b for a, b in job['context']}
-    if job['kinds'][k] in ('leaf', 'cached'):
+    model = FILTER_MODEL[job['kinds'][k]]
+    if model == 'identity':
         return ctx
-    if job['kinds'][k] == 'count':
-        return dict(ctx, depth=1)
+    if model == 'depth1':
+        return dict(ctx, depth=ctx.get('depth', 0) + 1)
+    if model == 'depth10':
+        return dict(ctx, depth=ctx.get('depth', 0) + 10)
+    if model == 'complement':
+        return {key: value for key, value in ctx.items() if key not in job['keys'][k]}
+    assert model == 'subset'
     return {key: ctx[key] for key in job['keys'][k] if key in ctx}
+
+
+def wrong_context_tasks(rec):
+    job = rec['job']
+    if job.get('two_labs') or rec.get('status') != 'returned':
+        return []
+    return [int(ks) for ks, o in rec['results'].items()
+            if job['kinds'][int(ks)] != 'cached' and o['context'] != expected_context(job, int(ks))]
+
+
+def sub_job(job, keep):
+    """the job restricted to the tasks in `keep` (dependencies outside it dropped), renumbered"""
+    keep = sorted(keep)
+    new = {old: i for i, old in enumerate(keep)}
+    red = {a: b for a, b in job.items() if a not in ('index', 'pair_of', 'matrix')}
+    kinds = [job['kinds'][o] for o in keep]
+    deps = [[new[d] for d in job['deps'][o] if d in new] for o in keep]
+    red.update(n=len(keep), deps=deps, kinds=kinds, keys=[job['keys'][o] for o in keep], req=list(range(len(keep))))
+    return red
+
+
+def shrink_context_violation(rec):
+    """smaller jobs that still show a wrong context: the offending task alone, else with its dependency closure;
+    each candidate is RE-RUN on the real backend and kept only if the monitor still raises the alarm"""
+    job = rec['job']
+    bad = wrong_context_tasks(rec)
+    if not bad or job['n'] == 1:
+        return None
+    k = bad[0]
+    closure, todo = set(), [k]
+    while todo:
+        t = todo.pop()
+        if t not in closure:
+            closure.add(t)
+            todo += job['deps'][t]
+    cands = [sub_job(job, [k])] + ([sub_job(job, closure)] if 1 < len(closure) < job['n'] else [])
+    recs, _errs = run_workers([[c] for c in cands], 120)
+    for c in cands:   # smallest first
+        for r in recs:
+            if r['job'] == c:
+                ws = [w for w in monitor(r) if 'saw context' in w]
+                if ws:
+                    return dict(what=ws[0], replay=dict(job=c))
+    return None
 
 
 def monitor(rec):
@@ -182,12 +294,16 @@ def run(ctx):
     if not ctx['driver_ok']:
         return dict(evaluations=0, violations=[], disagreements=[dict(diff='driver does not build')])
     rng = random.Random(seed)
+    # second stream (derived from the seed) for the inheritance variants, so the DAG / context stream above is the
+    # same as it was before those kinds existed
+    rng_inh = random.Random(random.Random(seed).getrandbits(64) ^ 0xC16)
     n_jobs = 36 if tier == 'quick' else 400
     nworkers = 12 if tier == 'quick' else 16
     jobs = []
     for i in range(n_jobs):
         be = ['serial', 'fork', 'spawn'][i % 3]
         j = gen_job(rng, be)
+        vary_inheritance(rng_inh, j)
         jobs.append(j)
         if i % 4 == 0:  # same tasks under another context and another global value
             j2 = json.loads(json.dumps(j))
@@ -197,6 +313,11 @@ def run(ctx):
             jobs.append(j2)
     for be in ('fork', 'spawn', 'serial'):
         jobs.append(dict(two_labs=True, backend=be, n=4, deps=[], kinds=[], keys=[], req=[], mw=1, context=[], mark=0))
+    # every kind of filter origin on every backend in every run: non-empty and empty ({} / None) Lab context
+    for rounds in range(1 if tier == 'quick' else 6):
+        for be in ('spawn', 'fork', 'serial'):
+            jobs.append(gen_matrix_job(rng_inh, be, empty=False))
+            jobs.append(gen_matrix_job(rng_inh, be, empty=True))
     per = [[] for _ in range(nworkers)]
     for i, j in enumerate(jobs):
         j['index'] = i
@@ -208,6 +329,7 @@ def run(ctx):
     violations, disagreements, samples = [], [], []
     nontrivial = set()
     dist = {}
+    shrinkable = []
     lines, where = [], []
     for r in recs:
         job = r['job']
@@ -221,7 +343,23 @@ def run(ctx):
         dist['max_workers=%s' % job['mw']] = dist.get('max_workers=%s' % job['mw'], 0) + 1
         for w in monitor(r):
             violations.append(dict(what=w, replay=dict(job=job)))
-        if job['n'] >= 2 or any(k in ('sub', 'count') for k in job['kinds']):
+        if wrong_context_tasks(r):
+            shrinkable.append(r)
+        if job.get('matrix'):
+            dist['all_kinds_in_one_run'] = dist.get('all_kinds_in_one_run', 0) + 1
+        tag = 'lab_context=' + ('none' if job.get('ctx_none') else 'empty' if not job['context'] else 'nonempty')
+        dist[tag] = dist.get(tag, 0) + 1
+        if r['status'] == 'returned':
+            for ks in r['results']:
+                kind = job['kinds'][int(ks)]
+                for tag in ('filter_from=' + FILTER_ORIGIN[kind], 'filter=' + FILTER_MODEL[kind]):
+                    dist[tag] = dist.get(tag, 0) + 1
+                if FILTER_ORIGIN[kind] not in ('none', 'own') and kind != 'cached':
+                    ctx = {a: b for a, b in job['context']}
+                    if expected_context(job, int(ks)) != ctx:
+                        tag = 'inherited_filter_differs_from_identity/' + job['backend']
+                        dist[tag] = dist.get(tag, 0) + 1
+        if job['n'] >= 2 or any(FILTER_MODEL[k] != 'identity' for k in job['kinds']):
             nontrivial.add(json.dumps([job['backend'], job['n'], job['deps'], job['kinds'], job['keys'], job['mw']]))
         if r['status'] == 'returned':
             for ks in r['results']:
@@ -240,6 +378,16 @@ def run(ctx):
             samples.append(dict(job={k: job[k] for k in ('backend', 'n', 'deps', 'kinds', 'keys', 'mw', 'context', 'mark')},
                                 observed={ks: {a: o[a] for a in ('context', 'mark', 'start_method', 'main_thread')}
                                           for ks, o in r['results'].items() if isinstance(o, dict) and 'mark' in o}))
+    # shrunk failing inputs first (re-run on the real backend; kept only if the alarm is still raised)
+    shrunk = []
+    for r in sorted(shrinkable, key=lambda r: r['job']['n'])[:2]:
+        if r['job']['n'] == 1:     # already minimal
+            shrunk += [dict(what=w, replay=dict(job=r['job'])) for w in monitor(r) if 'saw context' in w][:1]
+        else:
+            sv = shrink_context_violation(r)
+            if sv:
+                shrunk.append(sv)
+    violations = shrunk + [v for v in violations if v not in shrunk]
     model = driver.run_lines(lines)
     for (r, k), mo in zip(where, model):
         ob = observed_line(r, k)
@@ -256,9 +404,9 @@ def run(ctx):
     dist['backend_selection_cases'] = nsel
     return dict(
         evaluations=len(recs) + nsel, distinct_nontrivial=len(nontrivial),
-        rule='real runs (serial, really forked, really spawned workers) of generated 1-4 task DAGs x max_workers x context filters; non-trivial = distinct (backend, DAG, filters, workers) with >= 2 tasks or a per-parameter context filter',
+        rule='real runs (serial, really forked, really spawned workers) of generated 1-4 task DAGs (plus one DAG per backend and per empty/non-empty context holding every task kind) x max_workers x context filters (identity / per-parameter subset / complement / non-idempotent; defined in the class body, inherited from a plain mixin, a parent task type or a grandparent, overriding an inherited one, or absent); non-trivial = distinct (backend, DAG, filters, workers) with >= 2 tasks or a non-identity context filter',
         samples=samples, violations=violations[:5], disagreements=disagreements[:5], distribution=dist,
         assumptions=['which start method CPython really uses and what a child really shares is observed, not proved: this property is partial by nature',
                      'pid/ppid/thread identity and a parent-mutated module global are taken as the observable of "own process", "inherits memory", "fresh interpreter"'],
-        explanation='real backends only; observation per task (where it ran, start method, view of a parent-mutated global, context) compared with the Env model and checked by the monitor; pairs of runs under different contexts compare cache keys and stored metadata',
+        explanation='real backends only; observation per task (where it ran, start method, view of a parent-mutated global, context) compared with the Env model and checked by the monitor; the expected context is computed from the checker\'s own table of the filter each task kind is written with (own / inherited / overridden / none), never by calling the decorated class; pairs of runs under different contexts compare cache keys and stored metadata',
     )
